@@ -114,7 +114,7 @@ impl Compiler {
         ensures
             r is Ok ==> hstep(old(self).height@, final(self).height@, 1),
             //@VACUITY
-            sym_wf(final(self).symbols),
+            sym_wf(final(self).symbols), sym_globals_kept(old(self).symbols, final(self).symbols),
             r is Ok ==> ({
                 let fused_lr = match (**left, **right) {
                     (Expr::Identifier(name), Expr::Int { value }) => fused_emitted(*old(self), *final(self), name@, value as int, operator_sem(*operator)),
